@@ -70,13 +70,13 @@ def run(cx):
             cx.check('C15.S1', ok, c.path, s.key(), 'record-ttl-clamped-with-its-own-type-bounds', s.term[:220], s.loc)
             cx.guard('C15.S1', [s], {'all-three-sections': r"^ok\(<Chain<A;B> as Iterator>::next\(Iterator::chain\(Iterator::chain\(slice::iter_mut\(arg3\.answers\),slice::iter_mut\(arg3\.authorities\)\),slice::iter_mut\(arg3\.additionals\)\)\)\)$"}, fn=c)
         r = cx.returns(c, r'.')
-        want = (r'^Ord::clamp\(Option::unwrap_or\(Iterator::min\(Iterator::map\(Iterator::filter\(Message::all_sections\(arg3\),closure:ResponseCache::clamp_positive_ttls::\{closure#0\}\),'
-                r'closure:ResponseCache::clamp_positive_ttls::\{closure#1\}\)\),RangeInclusive::into_inner\(TtlConfig::positive_response_ttl_bounds\(arg1\.ttl_config,arg2\)\)\.0\),'
+        want = (r'^Ord::clamp\(Option::unwrap_or\(Iterator::min\(Iterator::map\(Iterator::filter\(Message::all_sections\(arg3\),closure:ResponseCache::clamp_positive_ttls::\{closure@filter#0\}\),'
+                r'closure:ResponseCache::clamp_positive_ttls::\{closure@map#0\}\)\),RangeInclusive::into_inner\(TtlConfig::positive_response_ttl_bounds\(arg1\.ttl_config,arg2\)\)\.0\),'
                 r'RangeInclusive::into_inner\(TtlConfig::positive_response_ttl_bounds\(arg1\.ttl_config,arg2\)\)\.0,RangeInclusive::into_inner\(TtlConfig::positive_response_ttl_bounds\(arg1\.ttl_config,arg2\)\)\.1\)$')
         cx.check('C15.S1', len(r) == 1 and bool(re.search(want, r[0].term)), c.path, 'ret', 'lifetime=clamp(min(filtered ttls) or min, query-type bounds)', r[0].term[:300] if r else 'none')
         if st and r:
             cx.check('C15.S1', r[0].bb in cx.reachable_from(c, [st[0].bb]) and cx.has_guard(r[0], r'^!ok\(<Chain<A;B> as Iterator>::next\('), c.path, 'order', 'lifetime-computed-after-per-record-clamp', '')
-    c0 = cx.fn('C15.S1', R + 'ResponseCache::clamp_positive_ttls::{closure#0}')
+    c0 = cx.fn('C15.S1', R + 'ResponseCache::clamp_positive_ttls::{closure@filter#0}')
     if c0:
         t = cx.true_returns(c0)
         props = set()
@@ -87,7 +87,7 @@ def run(cx):
                     props.add(p)
         cx.check('C15.S1', props == {'eq:RecordType(^arg2,Record::record_type(arg2))', 'eq:RecordType(RecordType::CNAME,Record::record_type(arg2))'} and len(t) == 2,
                  c0.path, 'ret', 'filter=query-type-or-CNAME', '; '.join(sorted(props)))
-    c1 = cx.fn('C15.S1', R + 'ResponseCache::clamp_positive_ttls::{closure#1}')
+    c1 = cx.fn('C15.S1', R + 'ResponseCache::clamp_positive_ttls::{closure@map#0}')
     if c1:
         r = cx.returns(c1, r'.')
         cx.check('C15.S1', len(r) == 1 and r[0].term == 'Duration::from_secs(into<u64>(arg2.ttl))', c1.path, 'ret', 'key=record-ttl', '; '.join(s.term for s in r))
@@ -101,7 +101,7 @@ def run(cx):
             cx.check('C15.W1', bool(re.search(rf',{ELAPSED}\)$', s.term)), u.path, s.key(), 'decrement-by-elapsed', s.term[-150:], s.loc)
         ss = cx.calls(u, r'num::<impl u32>::saturating_sub$|num::saturating_sub$')
         cx.check('C15.W1', len(ss) == 1 and bool(re.search(rf'^num::saturating_sub\(.*,{ELAPSED}\)$', ss[0].term)), u.path, 'call', 'negative-ttl-saturating-sub-elapsed', ss[0].term[:200] if ss else 'none')
-    for sub in prog.find(r'^hickory_resolver::cache::Entry::updated_ttl::\{closure#\d+\}'):
+    for sub in prog.find(r'^hickory_resolver::cache::Entry::updated_ttl::\{closure[^}]*\}'):
         for s in cx.calls(sub, r'Record<R>::decrement_ttl$|Record::decrement_ttl$'):
             cx.check('C15.W1', s.term.endswith(',^arg2)') or s.term.endswith(',^^arg2)') or 'saturating_duration_since' in s.term or bool(re.search(r',\^+[a-zA-Z(]', s.term)), sub.path, s.key(), 'decrement-by-captured-elapsed', s.term[-80:], s.loc)
     for d in prog.find(r'^hickory_proto::rr::record::Record::decrement_ttl$'):
